@@ -14,6 +14,7 @@ import (
 
 func init() {
 	register(&Property{ID: "C04", Run: runC04, Mutants: []Mutant{
+		{Name: "numeric type index handed through the merged type section", File: "internal/wat/watutil/wat2wasm_type.go", Old: "\t\tif idx >= 0 && idx < len(p.mWat.Types) {\n\t\t\treturn p.mustFindFuncTypeIndex(p.mWat.Types[idx].Type)\n\t\t}\n", New: "", Expect: "numeric-index-through-merge"},
 		{Name: "loop block type index written as unsigned LEB", File: "internal/wat/watutil/wat2wasm_instruction.go", Old: "dst.Body = append(dst.Body, p.encodeInt32(idx)...)", New: "dst.Body = append(dst.Body, p.encodeUint32(uint32(idx))...)", Nth: 2, Expect: "immediate-signedness"},
 		{Name: "i32.const operand written as unsigned LEB", File: "internal/wat/watutil/wat2wasm_instruction.go", Old: "p.encodeInt32(ins.X)", New: "p.encodeUint32(uint32(ins.X))", Expect: "immediate-signedness"},
 		{Name: "call target written as signed LEB", File: "internal/wat/watutil/wat2wasm_instruction.go", Old: "\t\tdst.Body = append(dst.Body, wasm.OpcodeCall)\n\t\tdst.Body = append(dst.Body, p.encodeUint32(x)...)", New: "\t\tdst.Body = append(dst.Body, wasm.OpcodeCall)\n\t\tdst.Body = append(dst.Body, p.encodeInt32(int32(x))...)", Expect: "immediate-signedness"},
@@ -481,6 +482,7 @@ func runC04(c *Ctx) {
 
 	// ---- rule 4: index spaces
 	c04IndexSpaces(c, p, wu)
+	c04NumericThroughMerge(c, p, wu)
 	c04LimitsLiterals(c, p, wu)	// ---- rule 6: label resolution; rule 7: per-iteration pointers
 	c04LabelScope(c, p, wu)
 	c04PointerAliasing(c, p, wu, p.Pkg("internal/wasm/binary"))
